@@ -58,6 +58,7 @@ def make_program(parts):
         elif form == 1:
             out += [f"def {c}({a}, {b}=2):", f"    {d} = {a} * {b}", f"    return {d}", f"print({c}(3), {c}(3, {b}=4), {c}({a}=1))"]
         elif form == 2:
+            a, d = (n if n.strip("_") else "attr" + n.replace("_", "u") for n in (a, d))  # `_` / `__` are throwaway names, not attributes anyone reads
             out += [f"class {e}:", f"    {a} = 5", f"    def {f}(self, {b}):", f"        self.{d} = {b}", f"        return self.{d} + self.{a}", f"obj_{form} = {e}()", f"print(obj_{form}.{f}(1), obj_{form}.{d}, {e}.{a})"]
         elif form == 3:
             out += [f"for {g} in range(2):", f"    {h} = {g} * 2", f"    print({g}, {h})", f"print({g}, {h})"]
@@ -166,10 +167,14 @@ def alpha_check(before, after):
             return None
         local_ns = {}
         stored = {("local", v) for v in xb.co_varnames[: xb.co_argcount + xb.co_kwonlyargcount]}
+        # a class body is neither optimised nor the module: the names it stores are entries of the class namespace (attributes), not module globals
+        class_locals = {i.argval for i in ib if i.opname in ("STORE_NAME", "DELETE_NAME")} if path != "<module>" and not xb.co_flags & 0x2 else set()
         for p, q in zip(ib, ia):
             op = p.opname
             if op in LOCAL:
                 ns = "local"
+            elif op in GLOBALNS and str(p.argval) in class_locals:
+                ns = "classbody"
             elif op in GLOBALNS:
                 ns = "global" if path != "<module>" or True else "global"
             elif op in ATTR:
